@@ -25,6 +25,7 @@ type c15Result struct {
 	Limit uint32 `json:"limit"`
 }
 
+var c15Cands []string
 var c15Flat []*MIME
 var c15Names []string
 
@@ -53,7 +54,7 @@ func c15Decorate(t *rapid.T, s string) string {
 			b[i] -= 0x20
 		}
 	}
-	ws := []string{"", "", " ", "  ", "\t", "\n", " \r\n ", strings.Repeat(" ", 300)}
+	ws := []string{"", "", " ", "  ", "\t", "\n", " \r\n ", strings.Repeat(" ", 300), "\u00a0", "\u2003", "\u3000", "\u0085", "\u2028 ", "\v", "\f"}
 	out := rapid.SampledFrom(ws).Draw(t, "lws") + string(b)
 	np := rapid.IntRange(0, 3).Draw(t, "nparams")
 	keys := map[string]bool{}
@@ -150,12 +151,26 @@ func c15Check(c c15Case) vfResult {
 		return r
 	}
 	wantEq := strings.ToLower(c.Name) == strings.ToLower(c.OName)
+	// a caller keeps ONE candidate slice and overwrites its elements between calls
+	if c15Cands == nil {
+		c15Cands = make([]string, 3)
+	}
+	c15Cands[0], c15Cands[1], c15Cands[2] = "zz/zz", c.Other, "yy/yy; q=1"
+	if got := EqualsAny(c.Dec, c15Cands...); got != wantEq {
+		r.Err = fmt.Errorf("EqualsAny(%q, <a candidate slice the caller re-uses, now holding %q>) = %v, want %v", c.Dec, c15Cands, got, wantEq)
+		return r
+	}
 	if got := EqualsAny(c.Dec, c.Other); got != wantEq {
 		r.Err = fmt.Errorf("EqualsAny(%q, %q) = %v, want %v", c.Dec, c.Other, got, wantEq)
 		return r
 	}
 	if got := EqualsAny(c.Dec, "zz/zz", c.Other); got != wantEq {
 		r.Err = fmt.Errorf("EqualsAny(%q, zz/zz, %q) = %v, want %v", c.Dec, c.Other, got, wantEq)
+		return r
+	}
+	c15Cands[0], c15Cands[1], c15Cands[2] = c.Other, "zz/zz", "xx/xx"
+	if got := EqualsAny(c.Dec, c15Cands...); got != wantEq {
+		r.Err = fmt.Errorf("EqualsAny(%q, <re-used candidate slice, now %q>) = %v, want %v", c.Dec, c15Cands, got, wantEq)
 		return r
 	}
 	changed := c.Dec != c.Name
